@@ -26,7 +26,7 @@ def subst_var(body, name, val):
     return re.sub(r':%s\b' % name, val, out)
 
 def run(ctx):
-    rnd = ctx['rnd']; n = 500 if ctx['tier'] == 'quick' else 30000
+    rnd = ctx['rnd']; n = 6000 if ctx['tier'] == 'quick' else 30000
     cases = []; pairs = []
     data = gen.jdump(INPUT)
     for i in range(n):
